@@ -367,71 +367,56 @@ func loadKnown() []knownFinding {
 
 func runWorkers(spec *Spec, b *built, fl string, tier string, n int, runs int, budget time.Duration, extra []string) ([]*harness.WorkerResult, []string) {
 	var wg sync.WaitGroup
-	results := make([]*harness.WorkerResult, n)
+	var mu sync.Mutex
+	var results []*harness.WorkerResult
 	problems := make([]string, n)
 	replayDir := filepath.Join(outDir(), "replays")
+	start := time.Now()
 	for w := 0; w < n; w++ {
 		wg.Add(1)
 		go func(w int) {
 			defer wg.Done()
-			args := []string{"-check", spec.ID, "-seed", fmt.Sprint(seed()), "-tier", tier, "-worker", fmt.Sprint(w), "-workers", fmt.Sprint(n),
-				"-runs", fmt.Sprint(runs), "-budget", budget.String(), "-out", b.work, "-replays", replayDir, "-flavour", fl, "-tree", b.tree}
-			args = append(args, extra...)
-			if spec.CrashOracle != "" {
-				args = append(args, "-marker")
-			}
-			cmd := driverCmd(spec.forFl(fl), b.bins[fl], args)
-			cmd.Dir = b.work
-			env := append(cmd.Env, "GOMAXPROCS=2", "VERIF_REPO="+repoDir(), "VERIF_DIR="+verifDir)
-			env = append(env, b.env...)
-			if fl == "race" {
-				env = append(env, fmt.Sprintf("GORACE=halt_on_error=0 exitcode=0 log_path=%s/race-%d", b.work, w))
-			}
-			cmd.Env = env
-			var out strings.Builder
-			cmd.Stdout = &out
-			cmd.Stderr = &out
-			if err := cmd.Start(); err != nil {
-				problems[w] = err.Error()
-				return
-			}
-			done := make(chan error, 1)
-			go func() { done <- cmd.Wait() }()
-			grace := budget + 150*time.Second
-			select {
-			case err := <-done:
-				if err != nil && cmd.ProcessState.ExitCode() != 2 {
-					if v := crashViolation(spec, b, fl, w, out.String()); v != nil {
-						crashMu.Lock()
-						crashViols = append(crashViols, *v)
-						crashMu.Unlock()
-						return
-					}
-					problems[w] = fmt.Sprintf("worker %d (%s): %v\n%s", w, fl, err, tail(out.String(), 4000))
+			// A worker is a chain of OS processes ("segments"): when the code
+			// under test leaves process-wide daemons behind and something then
+			// looks wrong, the driver stops without judging it and a fresh
+			// process continues at exactly that plan.
+			first, firstSub := -1, 0
+			for seg := 0; ; seg++ {
+				left := budget - time.Since(start)
+				if seg > 0 && left < 2*time.Second {
 					return
 				}
-			case <-time.After(grace):
-				cmd.Process.Kill()
-				problems[w] = fmt.Sprintf("worker %d (%s): watchdog: still running %v after its budget", w, fl, grace-budget)
-				return
-			}
-			rb, err := os.ReadFile(filepath.Join(b.work, fmt.Sprintf("result-%s-%s-%d.json", spec.ID, fl, w)))
-			if err != nil {
-				if v := crashViolation(spec, b, fl, w, out.String()); v != nil {
-					crashMu.Lock()
-					crashViols = append(crashViols, *v)
-					crashMu.Unlock()
+				if seg == 0 {
+					left = budget
+				}
+				args := []string{"-check", spec.ID, "-seed", fmt.Sprint(seed()), "-tier", tier, "-worker", fmt.Sprint(w), "-workers", fmt.Sprint(n),
+					"-runs", fmt.Sprint(runs), "-budget", left.String(), "-out", b.work, "-replays", replayDir, "-flavour", fl, "-tree", b.tree,
+					"-first", fmt.Sprint(first), "-firstsub", fmt.Sprint(firstSub), "-seg", fmt.Sprint(seg)}
+				args = append(args, extra...)
+				if spec.CrashOracle != "" {
+					args = append(args, "-marker")
+				}
+				r, cont, prob := runSegment(spec, b, fl, w, seg, left, args)
+				if prob != "" {
+					problems[w] = prob
 					return
 				}
-				problems[w] = fmt.Sprintf("worker %d (%s): no result file: %v\n%s", w, fl, err, tail(out.String(), 4000))
-				return
+				if r != nil {
+					mu.Lock()
+					results = append(results, r)
+					mu.Unlock()
+				}
+				if cont == nil {
+					return
+				}
+				if cont[0] == first && cont[1] == firstSub {
+					// the fresh process stopped at its very first plan again:
+					// cannot happen (it starts untainted); do not spin
+					problems[w] = fmt.Sprintf("worker %d (%s): continuation made no progress at run %d.%d", w, fl, first, firstSub)
+					return
+				}
+				first, firstSub = cont[0], cont[1]
 			}
-			var r harness.WorkerResult
-			if err := json.Unmarshal(rb, &r); err != nil {
-				problems[w] = err.Error()
-				return
-			}
-			results[w] = &r
 		}(w)
 	}
 	wg.Wait()
@@ -441,7 +426,80 @@ func runWorkers(spec *Spec, b *built, fl string, tier string, n int, runs int, b
 			probs = append(probs, p)
 		}
 	}
+	sort.SliceStable(results, func(i, j int) bool {
+		if results[i].Worker != results[j].Worker {
+			return results[i].Worker < results[j].Worker
+		}
+		return results[i].Seg < results[j].Seg
+	})
 	return results, probs
+}
+
+// runSegment runs one driver process. It returns the process's result, where a
+// fresh process has to continue (nil: nowhere), or a problem.
+func runSegment(spec *Spec, b *built, fl string, w, seg int, budget time.Duration, args []string) (*harness.WorkerResult, *[2]int, string) {
+	cmd := driverCmd(spec.forFl(fl), b.bins[fl], args)
+	cmd.Dir = b.work
+	env := append(cmd.Env, "GOMAXPROCS=2", "VERIF_REPO="+repoDir(), "VERIF_DIR="+verifDir)
+	env = append(env, b.env...)
+	if fl == "race" {
+		env = append(env, fmt.Sprintf("GORACE=halt_on_error=0 exitcode=0 log_path=%s/race-%d", b.work, w))
+	}
+	cmd.Env = env
+	var out strings.Builder
+	cmd.Stdout = &out
+	cmd.Stderr = &out
+	marker := filepath.Join(b.work, fmt.Sprintf("marker-%s-%s-%d.json", spec.ID, fl, w))
+	os.Remove(marker)
+	if err := cmd.Start(); err != nil {
+		return nil, nil, err.Error()
+	}
+	done := make(chan error, 1)
+	go func() { done <- cmd.Wait() }()
+	grace := budget + 150*time.Second
+	died := func() (*harness.WorkerResult, *[2]int, string) {
+		// a crash of a process that earlier plans had left daemons in says
+		// nothing unless a fresh process crashes on the same plan
+		var mk harness.Replay
+		if mb, err := os.ReadFile(marker); err == nil {
+			json.Unmarshal(mb, &mk)
+		}
+		if v := crashViolation(spec, b, fl, w, out.String()); v != nil {
+			crashMu.Lock()
+			crashViols = append(crashViols, *v)
+			crashMu.Unlock()
+			return nil, nil, ""
+		}
+		if mk.Tainted {
+			return nil, &[2]int{mk.Run, mk.Sub}, ""
+		}
+		return nil, nil, fmt.Sprintf("worker %d (%s): died without a result\n%s", w, fl, tail(out.String(), 4000))
+	}
+	select {
+	case err := <-done:
+		if err != nil && cmd.ProcessState.ExitCode() != 2 {
+			return died()
+		}
+	case <-time.After(grace):
+		cmd.Process.Kill()
+		return nil, nil, fmt.Sprintf("worker %d (%s): watchdog: still running %v after its budget", w, fl, grace-budget)
+	}
+	name := fmt.Sprintf("result-%s-%s-%d.json", spec.ID, fl, w)
+	if seg > 0 {
+		name = fmt.Sprintf("result-%s-%s-%d.%d.json", spec.ID, fl, w, seg)
+	}
+	rb, err := os.ReadFile(filepath.Join(b.work, name))
+	if err != nil {
+		return died()
+	}
+	var r harness.WorkerResult
+	if err := json.Unmarshal(rb, &r); err != nil {
+		return nil, nil, err.Error()
+	}
+	if r.Continue {
+		return &r, &[2]int{r.ContinueRun, r.ContinueSub}, ""
+	}
+	return &r, nil, ""
 }
 
 var (
